@@ -75,3 +75,31 @@ prop("C14", level="exploration", stages=_alloc_stages,
      min_nontrivial=dict(quick=1000, thorough=5000),
      min_counters=dict(scripts_executed=dict(quick=1000000, thorough=10000000)),
      assumptions=["the reference model in harness/alloc/model.go states the property correctly"])
+
+
+# ---------------------------------------------------------------- C18: notifications publisher
+prop("C18", level="exploration",
+     stages=[
+         dict(pkg="pubsub", test="TestExhaustive", sub="exh", race=True, exhaustive=True,
+              cases=dict(quick=121, thorough=121), timeout=3600),
+         dict(pkg="pubsub", test="TestRandom", sub="random", race=True,
+              cases=dict(quick=5000, thorough=200000), timeout=3600),
+         dict(pkg="pubsub", test="TestConcurrent", sub="conc", race=True,
+              cases=dict(quick=1000, thorough=20000), timeout=3600),
+     ],
+     technique="runtime monitoring: recording subscribers at the Subscriber boundary; exact reference-model comparison for single-driver scripts (bounded-exhaustive + random), real-time mandatory/forbidden-set and order oracle for 4-driver histories; Go race detector",
+     level_text=("Every OnNext/OnClose the real publisher makes is recorded and compared, per (subscriber, topic), with the exact delivery "
+                 "list of a statement-derived model for every script of length <= 5 (6 thorough) over 2 topics x 2 subscribers and for "
+                 "random scripts over 3 topics x 4 subscribers; 4-driver concurrent histories are decided from call/return stamps."),
+     level_note="Scripts never subscribe a (subscriber, topic) pair that is still live (the statement does not define that case). Completion of asynchronous delivery is detected with the tag-guarded busy counter.",
+     rule=("One evaluation = one exhaustive (first op, second op) prefix with all suffixes enumerated (scripts_executed counts scripts), "
+           "or one random script, or one 4-driver history; every script ends with Shutdown. Oracle per (subscriber, topic): callback "
+           "sequence == model (events published between subscribe and the ending call, in publication order, then exactly one OnClose "
+           "per subscription, nothing after); Subscribe/Unsubscribe return values; for concurrent histories: no phantom/duplicate/lost "
+           "event (mandatory = publish called after subscribe returned and returned before any ending call started; forbidden = publish "
+           "called after an ending call returned or returned before subscribe was called), per-driver and real-time order, consistent "
+           "order between subscribers, #OnClose == #successful subscriptions. Non-trivial = executed and compared; distinct by script."),
+     exhaustive_scope="all single-driver scripts of length 2..5 (quick) / 2..6 (thorough) over {subscribe,unsubscribe,publish,close,shutdown} x 2 topics x 2 subscribers, each followed by Shutdown",
+     min_nontrivial=dict(quick=3000, thorough=50000),
+     min_counters=dict(scripts_executed=dict(quick=100000, thorough=1000000)),
+     assumptions=["double subscription of a live (subscriber, topic) pair is out of scope of the statement"])
